@@ -96,9 +96,17 @@ class Interp:
         if name in assigns:
             if key in self.modconst_cache:
                 return self.modconst_cache[key]
+            per_state = st.ghost.setdefault("module_state", {})
+            if key in per_state:
+                return per_state[key]
             fr = Frame({}, [], modname)
             n_pc = len(st.pc)
             val = self.eval(st, fr, assigns[name])
+            if isinstance(val, (VDict, VList)):
+                # module-level mutable containers (caches, registries) are process state: one object
+                # per path, initially as written in the source
+                per_state[key] = val
+                return val
             if len(st.pc) == n_pc:
                 # cache only values whose evaluation assumed nothing (axioms of sqrt/log/exp terms
                 # belong to the state in which the term was created)
